@@ -44,6 +44,8 @@ where
     // Loop must be executed even if the previous program was waiting in HALT,
     // otherwise the next interrupt returns into the middle of the jump
     emulator.cpu.halted = false;
+    // The same applies to a prefix which is still waiting for its opcode
+    emulator.cpu.drop_pending_prefix();
 
     // Directly load screen memory from the asset
     let memory = emulator.controller.memory.ram_page_data_mut(bank);
